@@ -720,7 +720,7 @@ def oracle_surface(ck, rng):
                "from_atoms accepted coordinates that are not (N, 3)", {})
         # from_pdb
         atoms_a = rng.uniform(-20, 20, size=(30, 3)).round(3)          # x, y, z in Angstrom
-        with tempfile.TemporaryDirectory() as td:
+        with tempfile.TemporaryDirectory(dir=common.WORKROOT) as td:
             fn = os.path.join(td, "m.pdb")
             with open(fn, "w") as f_:
                 f_.write("HEADER    TEST\n")
